@@ -63,18 +63,19 @@ def ghost(case):
 # The theorems of a property speak about some observables of the model's run; they transfer to the
 # implementation on an input as soon as model and implementation agree on those observables there.
 # A view lists, per dump line tag, the fields the property's statement reads (see DESIGN 0.1):
-#   T idx type chan byte char line payload | R/A idx chan type start stop line col endline endcol payload
+#   T idx type chan byte char line payload | R idx chan type start stop line col endline endcol payload
+#   A idx chan type bytestart byteend start stop line col endline endcol payload
 #   E kind byte char line col last | L byte char | LIT hex | OUT outcome | END configuration
 # "k7" = first letter of field 7 (payload kind); "n7" = field 7 if it is a numeric payload, else its kind;
 # "eof2" = whether field 2 is the EOF type.
 VIEWS = {
     "C01": {"OUT": [1], "END": None, "only_ok": False},
-    "C02": {"T": [1, "eof2", 4], "R": [1, 4, 5], "A": [1, 4, 5]},
-    "C03": {"T": [1, 4, 5], "R": [1, 4, 5], "A": [1, 4, 5], "E": [2, 3]},
-    "C04": {"L": None, "T": [1, 4, 5, 6], "R": [1, 4, 5, 6, 7, 8, 9], "A": [1, 4, 5, 6, 7, 8, 9], "E": [2, 3, 4, 5]},
-    "C06": {"T": [1, 2, 3, 4, "k7"], "R": [1, 2, 3, 4, 5, "k10"], "A": [1, 2, 3, 4, 5, "k10"]},
-    "C07": {"T": [1, 2, 4, 7], "LIT": None, "R": [1, 3, 10], "A": [1, 3, 10]},
-    "C08": {"T": [1, 2, 4, 7], "R": [1, 3, 10], "A": [1, 3, 10]},
+    "C02": {"T": [1, "eof2", 4], "R": [1, 4, 5], "A": [1, 4, 5, 6, 7]},
+    "C03": {"T": [1, 4, 5], "R": [1, 4, 5], "A": [1, 4, 5, 6, 7], "E": [2, 3]},
+    "C04": {"L": None, "T": [1, 4, 5, 6], "R": [1, 4, 5, 6, 7, 8, 9], "A": [1, 6, 7, 8, 9, 10, 11], "E": [2, 3, 4, 5]},
+    "C06": {"T": [1, 2, 3, 4, "k7"], "R": [1, 2, 3, 4, 5, "k10"], "A": [1, 2, 3, 4, 5, "k12"]},
+    "C07": {"T": [1, 2, 4, 7], "LIT": None, "R": [1, 3, 10], "A": [1, 3, 12]},
+    "C08": {"T": [1, 2, 4, 7], "R": [1, 3, 10], "A": [1, 3, 12]},
     "C09": {"E": None, "T": [1, 2, 4]},
     "C10": {"T": [1, 2, 3]},
     "C12": {"E": None, "END": None, "OUT": [1], "only_ok": False},
